@@ -360,3 +360,8 @@ def coq_equation(c, mr):
         return "c19_history %s %s %s %s = %s" % (coq_lit(a[0]), coq_bytes(a[1]), files, batches, _lit_listing(mr[1]))
     return "c19_history_crash %s %s %s %s %s = (%s, %s)" % (coq_lit(a[0]), coq_bytes(a[1]), files, batches, coq_lit(a[4]),
                                                           _lit_listing(mr[1][0]), coq_lit(bool(mr[1][1])))
+
+
+# ops whose answer must not depend on the concrete bytes-like type of their arguments (they agree on the pinned tree;
+# tools/bytearray_probe.py); common.py re-runs a sample of their cases with bytearray arguments
+BYTEARRAY_OPS = {'history_crash', 'history'}
